@@ -209,8 +209,10 @@ func init() {
 		Profile: Profile{Prop: "C16", NoRef: true, Keys: [2]int{1, 6}},
 		OpW:     zeroExcept(map[string]int{"set": 44, "setifabsent": 4, "compute": 8, "invalidate": 10, "get": 6, "computeifpresent": 3}),
 		Tasks:   [2]int{1, 4}, OpsPer: [2]int{8, 40}, Prefill: [2]int{0, 4},
-		Executors:  []string{"sync", "queued", "queued", "default"},
-		NonTrivial: func(o *ConcOutcome) bool { return o.Probes["producer-order-notifications-checked"] > 1 || o.Switches > 4 },
+		Executors: []string{"sync", "queued", "queued", "default"},
+		NonTrivial: func(o *ConcOutcome) bool {
+			return o.Probes["producer-order-notifications-checked"] > 1 || o.Switches > 4
+		},
 	}
 	Props["C16"].Engines = append(Props["C16"].Engines, &concEngine{opts: c16})
 	Props["C16"].Conc = c16
@@ -322,5 +324,18 @@ func init() {
 			OpW: w(defaultOpW, map[string]int{"get": 40, "getentry": 8, "advance": 10, "runexec": 4, "cleanup": 3,
 				"hottest": 0, "coldest": 0, "setmax": 0, "getmax": 0, "wsize": 0, "esize": 0, "stats": 0})},
 		nontrivial: func(o *SeqOutcome) bool { h, _ := probeSum(o, "op:get@", "live"); return h >= 17 },
+	})
+	// C19 with stream faults (separate, relaxed configuration): the stream is truncated, a Read fails,
+	// or a Write of the save fails and the prefix is loaded. Nothing is demanded to arrive, but
+	// whatever the target then holds must be a saved, unexpired entry with its value and deadlines,
+	// within the target's bound; what Save / Load return, and a panic on a damaged stream, are counted
+	// as observations only (C19 does not speak about failing streams).
+	Props["C19"].Engines = append(Props["C19"].Engines, &seqEngine{
+		profile:      Profile{Prop: "C19", Executor: []string{"sync"}, MinOps: 3, MaxOps: 60, OpW: w(defaultOpW, map[string]int{"set": 30, "advance": 8, "setexpires": 4})},
+		saveLoad:     true,
+		streamFaults: true,
+		nontrivial: func(o *SeqOutcome) bool {
+			return o.Probes["saveload"]+o.Probes["load-returned-an-error-on-a-faulty-stream"] > 0
+		},
 	})
 }
